@@ -68,6 +68,17 @@ ASSUMPTIONS = [
     'kill, remove, set and reload are not in the command alphabet (kill and '
     'remove hold the tasks they act on, which the statement does not cover).',
     'Command IDs name single instances (no globs / families).',
+    'Status changes are taken from the pooled task proxy only (state events '
+    'of data-store ghost proxies / proxies rebuilt from DB history are '
+    'dropped by comparing with the pooled proxy and the call site).',
+    'Known finding (own narrow signature ...:hold-dropped-by-pool-removal): '
+    'TaskPool.remove() discards the removed proxy from tasks_to_hold, so an '
+    'instance held by command whose proxy leaves the pool (removed as a side '
+    'effect of re-triggering its parent, or on completion) is not held when '
+    'it is spawned again.  The model keeps such an instance held (the '
+    'statement speaks of instances); its later unheld submission is reported '
+    'under that signature only, and its unheld re-spawn is not reported '
+    'separately.',
 ]
 
 CMD_OPS = ['hold', 'hold', 'hold', 'release', 'release', 'hold-point',
